@@ -431,35 +431,23 @@ Proof. exact (@gathered_sgx_needs_root). Qed.
 
 (* the SGX certificate file loads back to the same certificate *)
 Theorem C15_sgx_file_roundtrip :
-  (bytes -> bytes) ->
-         (bytes -> bytes -> bytes -> bool) ->
-         (str -> option bytes) ->
-         (str -> option x509_info) ->
-         (str -> str -> bool) ->
-         forall (b64_of_pem : bytes -> str) (b64_norm key_norm : str -> option str) 
+  forall (b64_of_pem : bytes -> str) (b64_norm : str -> option str) 
            (e : envelope) (els : list celem),
          sgx_elements b64_of_pem e = Some els ->
          sgx_wf e ->
          (forall c : bytes, b64_norm (b64_of_pem c) = Some (b64_of_pem c)) ->
-         key_norm (hex (4 :: en_attkey e)) = Some (hex (4 :: en_attkey e)) ->
          exists j : json,
-           cert_to_json key_norm (sgx_cert els) = Some j /\ load_cert b64_norm j = LOk (sgx_cert els).
+           cert_to_json (sgx_cert els) = Some j /\ load_cert b64_norm j = LOk (sgx_cert els).
 Proof. exact (@sgx_file_roundtrip). Qed.
 
 (* and validates identically *)
 Theorem C15_sgx_file_validates_identically :
-  (bytes -> bytes) ->
-         (bytes -> bytes -> bytes -> bool) ->
-         (str -> option bytes) ->
-         (str -> option x509_info) ->
-         (str -> str -> bool) ->
-         forall (b64_of_pem : bytes -> str) (b64_norm key_norm : str -> option str) 
+  forall (b64_of_pem : bytes -> str) (b64_norm : str -> option str) 
            (e : envelope) (els : list celem) (j : json) (c' : cert),
          sgx_elements b64_of_pem e = Some els ->
          sgx_wf e ->
          (forall c : bytes, b64_norm (b64_of_pem c) = Some (b64_of_pem c)) ->
-         key_norm (hex (4 :: en_attkey e)) = Some (hex (4 :: en_attkey e)) ->
-         cert_to_json key_norm (sgx_cert els) = Some j ->
+         cert_to_json (sgx_cert els) = Some j ->
          load_cert b64_norm j = LOk c' ->
          c' = sgx_cert els /\
          (forall (link : celem -> certifier -> bool) (tg : json),
@@ -468,20 +456,14 @@ Proof. exact (@sgx_file_validates_identically). Qed.
 
 (* also with 0 bytes of QE auth data (fix 36570d0) *)
 Theorem C15_sgx_empty_auth_loadable :
-  (bytes -> bytes) ->
-         (bytes -> bytes -> bytes -> bool) ->
-         (str -> option bytes) ->
-         (str -> option x509_info) ->
-         (str -> str -> bool) ->
-         forall (b64_of_pem : bytes -> str) (b64_norm key_norm : str -> option str) 
+  forall (b64_of_pem : bytes -> str) (b64_norm : str -> option str) 
            (e : envelope) (els : list celem),
          sgx_elements b64_of_pem e = Some els ->
          en_auth e = [] ->
          sgx_wf e ->
          (forall c : bytes, b64_norm (b64_of_pem c) = Some (b64_of_pem c)) ->
-         key_norm (hex (4 :: en_attkey e)) = Some (hex (4 :: en_attkey e)) ->
          exists j : json,
-           cert_to_json key_norm (sgx_cert els) = Some j /\
+           cert_to_json (sgx_cert els) = Some j /\
            load_cert b64_norm j = LOk (sgx_cert els) /\
            (exists att : celem, nth_error els 1 = Some att /\ ce_extra2 att = []).
 Proof. exact (@sgx_empty_auth_loadable). Qed.
@@ -603,10 +585,8 @@ Proof. exact (@ledger_alteration_covered). Qed.
 
 (* the Ledger certificate file loads back unchanged *)
 Theorem C15_ledger_file_roundtrip :
-  (celem -> certifier -> bool) ->
-         (bytes -> bytes) ->
-         forall (dev att : key_info) (ui_msg ui_sig ui_hash sg_msg sg_sig sg_hash : bytes)
-           (b64_norm key_norm : str -> option str),
+  forall (dev att : key_info) (ui_msg ui_sig ui_hash sg_msg sg_sig sg_hash : bytes)
+           (b64_norm : str -> option str),
          good (ki_message att) ->
          good (ki_signature att) ->
          good (ki_message dev) ->
@@ -618,7 +598,7 @@ Theorem C15_ledger_file_roundtrip :
          good sg_sig ->
          good sg_hash ->
          exists j : json,
-           cert_to_json key_norm
+           cert_to_json
              (ledger_cert (ledger_elements dev att ui_msg ui_sig ui_hash sg_msg sg_sig sg_hash)) =
            Some j /\
            load_cert b64_norm j =
